@@ -1673,14 +1673,17 @@ impl<'input, T: Input> Scanner<'input, T> {
                 Chomping::Strip => String::new(),
                 // There was no newline after the chomping indicator.
                 _ if self.mark.line == start_mark.line() => String::new(),
-                // We clip lines, and there was a newline after the chomping indicator.
-                // All other breaks are ignored.
-                Chomping::Clip => chomping_break,
-                // We keep lines. There was a newline after the chomping indicator but nothing
-                // else.
-                Chomping::Keep if trailing_breaks.is_empty() => chomping_break,
-                // Otherwise, the newline after chomping is ignored.
-                Chomping::Keep => trailing_breaks,
+                // We clip lines: without content, nothing remains (the newline after the chomping
+                // indicator is not part of the scalar).
+                Chomping::Clip => String::new(),
+                // We keep lines: every empty line counts, including a last line made only of
+                // indentation that the end of the stream terminates.
+                Chomping::Keep => {
+                    if self.mark.col > 0 {
+                        trailing_breaks.push('\n');
+                    }
+                    trailing_breaks
+                }
             };
             return Ok(Token(
                 Span::new(start_mark, self.mark),
